@@ -80,6 +80,14 @@ m("M70", S+"cloned.rs", "    fn early_exit(&self) {\n        self.iter.early_exi
 m("M71", S+"copied.rs", "        self.iter.get(item_idx).copied()", "        let _ = self.iter.counter().current();\n        self.iter.get(item_idx).copied()", ["C13", "C01"], harmless=True)
 m("M72", S+"cloned.rs", "        self.iter.progress_and_get_begin_idx(number_to_fetch)", "        let r = self.iter.progress_and_get_begin_idx(number_to_fetch);\n        let _ = self.iter.counter().current();\n        r", ["C13", "C03"], harmless=True)
 
+# ---- semantics-preserving refactorings: every check named must stay silent ---------------------------------
+m("M80", S+"atomic_counter.rs", "        let update = |current: usize| Some(current.saturating_add(len));\n        match self\n            .current\n            .fetch_update(Ordering::AcqRel, Ordering::Acquire, update)\n        {\n            Ok(previous) | Err(previous) => previous,\n        }", "        let mut current = self.current.load(Ordering::Acquire);\n        loop {\n            match self.current.compare_exchange_weak(current, current.saturating_add(len), Ordering::AcqRel, Ordering::Acquire) {\n                Ok(previous) => return previous,\n                Err(actual) => current = actual,\n            }\n        }", ["C01", "C04", "C06", "C07", "C09", "C16"], harmless=True)
+m("M81", S+"atomic_counter.rs", ".fetch_update(Ordering::AcqRel, Ordering::Acquire, update)", ".fetch_update(Ordering::SeqCst, Ordering::SeqCst, update)", ["C07", "C01", "C09"], harmless=True)
+m("M82", S+"implementors/iter.rs", "                    if self.completed.load(atomic::Ordering::Relaxed) {\n                        return None;\n                    }\n                }\n            }\n        }\n    }\n\n    fn fetch_n", "                    if self.completed.load(atomic::Ordering::SeqCst) {\n                        return None;\n                    }\n                }\n            }\n        }\n    }\n\n    fn fetch_n", ["C07", "C09", "C18"], harmless=True)
+m("M83", S+"buffered/iter.rs", "        let older_count = iter.progress_yielded_counter(self.chunk_size());", "        for slot in self.values[i..].iter_mut() {\n            *slot = None;\n        }\n        let older_count = iter.progress_yielded_counter(self.chunk_size());", ["C03", "C04", "C08", "C18", "C15"], harmless=True)
+m("M84", S+"implementors/slice.rs", "        let len = match current.cmp(&initial_len) {\n            std::cmp::Ordering::Less => initial_len - current,\n            _ => 0,\n        };", "        let len = initial_len.saturating_sub(current);", ["C11", "C16", "C19"], harmless=True)
+m("M85", S+"implementors/iter.rs", "                Ordering::Greater => {\n                    if self.completed.load(atomic::Ordering::Relaxed) {\n                        return None;\n                    }\n                }\n            }\n        }\n    }\n\n    fn get", "                Ordering::Greater => {\n                    if self.completed.load(atomic::Ordering::Relaxed) {\n                        return None;\n                    }\n                    std::hint::spin_loop();\n                }\n            }\n        }\n    }\n\n    fn get", ["C07", "C09", "C05", "C01"], harmless=True)
+
 LOCK_MOD = '''
 /// test-and-set spin lock built from the crate's (monitored) atomic type
 pub mod verif_lock {
